@@ -66,6 +66,8 @@ def run(ctx):
     c10.pairing(ctx, 'C17.R2', only=('remove',))
     # R3 per-well forwarding
     c07.forwarding(ctx, 'C17.R3', only=('remove',))
+    # ... and a remove step of a recipe acts on the wells it addressed
+    c07.addressed_selection(ctx, 'C17.R3', only=('remove',))
     # R4 trash accounting
     trash(ctx, 'C17.R4')
     return {'explanation': 'R1: the kept contents are a dict comprehension over the container\'s own items whose key and '
